@@ -89,8 +89,6 @@ func c39rScenario(t *testing.T, spec c39rSpec, reps, L, D, F int, deadline time.
 		}
 		return "?"
 	}
-	infos := map[string]c39rInfo{}
-	hkey := func(h []c39rEv) string { return fmt.Sprint(h) }
 	var env *c41Env
 	batch := func(run func()) any {
 		return vfBubble(t, func() {
@@ -99,7 +97,7 @@ func c39rScenario(t *testing.T, spec c39rSpec, reps, L, D, F int, deadline time.
 			env.stop()
 		})
 	}
-	exec := func(h []c39rEv) vsched.StepResult {
+	exec := func(h []c39rEv) (vsched.StepResult, c39rInfo) {
 		var res vsched.StepResult
 		env.reset()
 		know := make([]any, reps)
@@ -208,9 +206,8 @@ func c39rScenario(t *testing.T, spec c39rSpec, reps, L, D, F int, deadline time.
 		}
 		fmt.Fprintf(&b, " |%d,%d,%d", info.nOps, info.nDup, info.nFul)
 		res.Canon, res.Obs = b.String(), obs.String()
-		infos[hkey(h)] = info
 		if deviatedBefore {
-			return res
+			return res, info
 		}
 		// (2)
 		for i := 0; i < reps; i++ {
@@ -251,10 +248,9 @@ func c39rScenario(t *testing.T, spec c39rSpec, reps, L, D, F int, deadline time.
 				res.Violations = append(res.Violations, vsched.Fail(c39rSig("replica-that-saw-everything-differs-from-merge-of-full-states", cs), "replica %d has seen every update and exposes %s; the merge of all stored values exposes %s", i, c39rObs(ss[i].d), fo))
 			}
 		}
-		return res
+		return res, info
 	}
-	alphabet := func(h []c39rEv) []c39rEv {
-		info := infos[hkey(h)]
+	alphabet := func(h []c39rEv, info c39rInfo) []c39rEv {
 		var evs []c39rEv
 		if info.nOps < L {
 			for i := 0; i < reps; i++ {
@@ -310,12 +306,15 @@ func TestVerifC39Replicator(t *testing.T) {
 		reps, L, D, F int
 	}
 	plans := []plan{
-		{"gcounter", 2, 3, vsched.Pick(0, 1), 1}, {"gcounter", 3, 2, vsched.Pick(0, 1), 1},
+		{"gcounter", 2, vsched.Pick(3, 4), vsched.Pick(0, 1), 1}, {"gcounter", 3, vsched.Pick(2, 3), 0, 1},
 		{"pncounter", 2, vsched.Pick(2, 3), 1, 1},
-		{"flag", 3, 2, 1, 1},
+		{"flag", 3, vsched.Pick(2, 3), 1, 1},
 		{"mvregister", 2, vsched.Pick(2, 3), 1, 1},
-		{"orset", 2, 3, vsched.Pick(0, 1), 1}, {"orset", 3, 2, vsched.Pick(0, 1), vsched.Pick(0, 1)},
+		{"orset", 2, 3, vsched.Pick(0, 1), 1}, {"orset", 3, vsched.Pick(2, 3), 0, vsched.Pick(0, 1)},
 		{"ormap", 2, 3, vsched.Pick(0, 1), vsched.Pick(0, 1)},
+	}
+	if r.Thorough() {
+		plans = append(plans, plan{"mvregister", 3, 2, 1, 1}, plan{"ormap", 3, 3, 0, 0})
 	}
 	start := time.Now()
 	for k, pl := range plans {
